@@ -278,6 +278,53 @@ theorem never_stuck (kind : CCKind) (cc : CCState ℚ) (rtt : ℚ) (mss n : Nat)
     ∃ a l', Loop.Fair l a ∧ l.step a = some l' :=
   fair_progress (reach_LInv (LInv_init (fresh_init kind cc rtt mss n now hcc hrtt hn hm hd hc)) hr) hq
 
+/-! ### liveness: termination under finitely many losses -/
+
+/-- **Every fair run with finitely many losses is finite and ends with everything delivered and acknowledged.**
+Runs with a loss budget (`Loop.BStep` on pairs `(k, l)`): a step is either a *fair* step of the closed loop
+(`Loop.Fair`: any enabled burst - resumption of `run`, token hand-off, expiry of a due timer, delivery of the head of
+the data path, arrival of the head of the ACK path - in **any** order; the clock advances only when neither path holds
+a packet, and then exactly to the next timer wake-up, as the kernel jumps to its next event), or the loss of any packet
+or ACK in flight, which consumes one unit of the budget `k` - "the path drops finitely many packets".  Under the
+hypotheses of `quiescent_implies_complete`, for every budget `k`:
+
+1. there is **no infinite run** from the initial state - the sender cannot retransmit for ever, the two paths cannot
+   bounce packets for ever, the clock cannot advance for ever;
+2. every state `(k', l)` the run can reach from which **no step is possible** (the run is maximal) is quiescent and has
+   `sink = [(0, n)]`, `last_ack = n`.
+
+So every maximal run reaches the complete state after finitely many steps, whichever packets (at most `k`) are lost
+and however the enabled bursts are interleaved. -/
+theorem terminates_under_loss_budget (kind : CCKind) (cc : CCState ℚ) (rtt : ℚ) (mss n : Nat) (now : ℚ)
+    (hcc : CCInv kind cc) (hrtt : 0 < rtt) (hn : 0 < n) (hm : 0 < mss) (hd : mss ∣ n) (hc : (mss : ℚ) ≤ cc.mss)
+    (k : Nat) :
+    (¬ ∃ f : Nat → Nat × Loop ℚ, f 0 = (k, Loop.init (Sender.init kind cc rtt mss (some n) now)) ∧
+        ∀ i, Loop.BStep (f i) (f (i + 1))) ∧
+    (∀ k' l, Relation.ReflTransGen Loop.BStep (k, Loop.init (Sender.init kind cc rtt mss (some n) now)) (k', l) →
+        (∀ y, ¬ Loop.BStep (k', l) y) → l.Quiescent ∧ l.sink = [(0, n)] ∧ l.snd.last_ack = n) := by
+  have h0 := LInv_init (fresh_init kind cc rtt mss n now hcc hrtt hn hm hd hc)
+  refine ⟨no_infinite_of_acc (bstep_acc k _ h0), fun k' l hr hstuck => ?_⟩
+  have h : LInv n l := breach_LInv hr h0
+  have hq := stuck_quiescent h hstuck
+  exact ⟨hq, quiescent_complete h hq⟩
+
+/-- the same from any reachable state (whatever was lost before), as well-foundedness: the converse of `Loop.BStep` is
+well-founded below every `(k, l)` with `l` reachable -/
+theorem fair_runs_wellFounded (kind : CCKind) (cc : CCState ℚ) (rtt : ℚ) (mss n : Nat) (now : ℚ)
+    (hcc : CCInv kind cc) (hrtt : 0 < rtt) (hn : 0 < n) (hm : 0 < mss) (hd : mss ∣ n) (hc : (mss : ℚ) ≤ cc.mss)
+    (l : Loop ℚ) (hr : LReach (Loop.init (Sender.init kind cc rtt mss (some n) now)) l) (k : Nat) :
+    Acc (fun y x => Loop.BStep x y) (k, l) :=
+  bstep_acc k l (reach_LInv (LInv_init (fresh_init kind cc rtt mss n now hcc hrtt hn hm hd hc)) hr)
+
+/-- a budgeted fair run is in particular a run of the closed loop (so all safety results apply to it), it stops
+exactly in the quiescent states, and each fair step decreases the measure `TcpLive.mu` in the lexicographic order -/
+theorem fair_run_facts (n : Nat) (l : Loop ℚ) (h : LInv n l) :
+    (∀ k y, Relation.ReflTransGen Loop.BStep (k, l) y → LReach l y.2) ∧
+    (∀ k, l.Quiescent ↔ ∀ y, ¬ Loop.BStep (k, l) y) ∧
+    (∀ a l', Loop.Fair l a → l.step a = some l' → Lt5 (mu n l') (mu n l)) :=
+  ⟨fun _ _ hr => breach_lreach hr, fun _ => ⟨fun hq => quiescent_stuck hq, fun hs => stuck_quiescent h hs⟩,
+   fun _ _ hf hs => fair_decreases h hf hs⟩
+
 /-
 **Not proved — closed-loop liveness.**  Full statement:
 
@@ -367,5 +414,23 @@ example : ((Loop.init (Sender.init .reno ({ (TCPCubic.defaults : CCState ℚ) wi
     [.own (.wake 4), .dropData 0, .own (.tick 2), .own (.fire 0), .deliver, .ackArrive, .own .handoff, .own (.wake 4)]).map
       (fun l => ((decide l.Quiescent, decide (l.Complete 1024), l.sink), (l.snd.last_ack, l.snd.next_seq, l.snd.proc)))
     = some ((true, false, [(0, 512)]), (512, 512, .blocked)) := by decide +kernel
+
+/-- the run above is a fair run with loss budget 1 (`Loop.runB` checks that every action is accepted and is fair or an
+allowed loss; `TcpLive.runB_sound`): it uses up the budget, and stops - quiescent and complete - as
+`terminates_under_loss_budget` says -/
+example : ((Loop.init (Sender.init .reno ({ (TCPCubic.defaults : CCState ℚ) with mss := 512, cwnd := 512, ssthresh := 65535 })
+      1 512 (some 1024) 0)).runB 1
+    [.own (.wake 4), .dropData 0, .own (.tick 2), .own (.fire 0), .deliver, .ackArrive, .own .handoff, .own (.wake 4),
+     .deliver, .ackArrive]).map (fun y => (y.1, decide y.2.Quiescent, decide (y.2.Complete 1024)))
+    = some (0, true, true) := by decide +kernel
+
+/-- a second loss is refused with budget 1, and advancing the clock while a packet is in flight is not fair -/
+example : ((Loop.init (Sender.init .reno ({ (TCPCubic.defaults : CCState ℚ) with mss := 512, cwnd := 512, ssthresh := 65535 })
+      1 512 (some 1024) 0)).runB 1
+    [.own (.wake 4), .dropData 0, .own (.tick 2), .own (.fire 0), .dropData 0]).isSome = false ∧
+  ((Loop.init (Sender.init .reno ({ (TCPCubic.defaults : CCState ℚ) with mss := 512, cwnd := 512, ssthresh := 65535 })
+      1 512 (some 1024) 0)).runB 1 [.own (.wake 4), .own (.tick 2)]).isSome = false ∧
+  ((Loop.init (Sender.init .reno ({ (TCPCubic.defaults : CCState ℚ) with mss := 512, cwnd := 512, ssthresh := 65535 })
+      1 512 (some 1024) 0)).run [.own (.wake 4), .own (.tick 2)]).isSome = true := by decide +kernel
 
 end C16
